@@ -2,11 +2,13 @@
 
 Domain : generated well-formed method (blocks, watches, alarms, macros, waits, thresholds, Quick/Slow) x input trajectory
          x edit script of 1-4 live edits (append at the end of the method / of a not-finished scope, change / insert before /
-         delete a not-started line, whitespace-only change, change of a STARTED line), targets resolved at the edit tick
+         delete a not-started line, trailing-whitespace-only change, change of a STARTED line (text, or ONLY its indentation so
+         that it moves into / out of a scope), append to the body of a macro that has started executing), targets resolved at the edit tick
          from the reported method state; a fraction injects a snippet with a long-running command 1-3 ticks before an edit.
 Oracle : (a) history invariants of the edited run: started/executed/failed ids reported before an accepted edit are still
              reported after it (ids still present); no non-repeating line produces its effect twice; an active run merges;
-         (b) an edit changing a started line raises MethodEditError, leaves method text + method state untouched and the
+         (b) an edit changing a started line (text or indentation) or the source of a macro that has started executing raises
+             MethodEditError, leaves method text + method state untouched and the
              run equals (same ticks, same events) a twin run without that edit;
          (c) differential: a fresh load of the final method (same inputs, same number of ticks, both quiescent) shows the
              same per-thread effect order, the same executed lines, and finalizes every command the fresh run finalizes.
@@ -26,13 +28,20 @@ TECHNIQUE = ("Hypothesis-generated methods x live-edit scripts resolved from the
              "twin run without a rejected edit, differential against a fresh load of the final method")
 RULE = ("Hypothesis draws a method (<=7 top-level nodes, depth<=3: Mark/Quick/Slow/Wait/Block/Watch/Alarm/Macro/Call macro, "
         "thresholds), constant or changing inputs, and 1-4 edits at ticks spread over the estimated run (kinds append_end, "
-        "append_scope, change, insert, delete, ws, change_started; target = idx modulo the lines eligible under the method "
+        "append_scope, change, insert, delete, ws, change_started, reindent_started, append_macro; 1/6 of the cases belong to a "
+        "macro family (macro called at the start, edits aimed at macros); target = idx modulo the lines eligible under the method "
         "state reported at that tick); 25 % inject a snippet with a long-running command 1-6 ticks before an edit; 20 % put a user Pause/Hold window around an edit. "
         "Non-trivial = at least one edit was ACCEPTED after a line of the method had started and before the method end event. "
         "Distinct = distinct (method, inputs, script).")
 ASSUMPTIONS = [
     "'already-started line' = id listed in started/executed/failed of Engine.method_manager.get_method_state() at the edit",
-    "a whitespace-only change of a started line may be accepted or rejected (the statement does not say whether it is a change); "
+    "a change of ONLY the indentation of a started line that moves it into the body of the preceding Block/Watch/Alarm/Macro or out of "
+    "its parent's body is a change of that line (it changes which scope executes it) and must be rejected",
+    "a macro 'has started executing' when the reported method state lists one of its body lines as started/executed/failed or a "
+    "'Call macro' line naming it as executed; an edit that changes its significant source lines (add/remove/change, whitespace and "
+    "comments ignored) changes what the already started 'Macro'/'Call macro' lines mean and must be rejected (the engine's own rule: "
+    "'The macro ... has already started executing may not be modified'); edits of macros not (yet) shown as started are not judged this way",
+    "a TRAILING-whitespace-only change of a started line may be accepted or rejected (the statement does not say whether it is a change); "
     "if rejected it must have no side effect",
     "an edit of not-started lines that the engine rejects (e.g. node class mismatch) is counted, not judged, except by the history invariants",
     "timing is not compared in (c); (c) is applied only with constant inputs, no Watch/Alarm nested in a Block, both runs quiescent",
@@ -48,7 +57,9 @@ TIERS = {"quick": {"examples": 3200, "budget_s": 150, "max_top": 6, "max_depth":
 EXCLUDE_KNOWN_MERGE_DISCARDS_STATE = True
 SIG_MERGE_DISCARDS = "lost-state:all:merge-installs-stateless-program"
 
-KINDS_W = ["append_end"] * 3 + ["append_scope"] * 3 + ["change"] * 3 + ["insert"] * 3 + ["delete"] * 2 + ["ws"] + ["change_started"] * 3
+KINDS_W = ["append_end"] * 3 + ["append_scope"] * 3 + ["change"] * 3 + ["insert"] * 3 + ["delete"] * 2 + ["ws"] + ["change_started"] * 3 + \
+    ["reindent_started"] * 3 + ["append_macro"]
+KINDS_MACRO = ["append_macro"] * 5 + ["insert", "delete", "change", "change_started", "reindent_started"]
 INJ_CMDS = ("OvA", "Set3")      # injected commands: names the method never uses (same-name commands cancel each other)
 EDIT_CMDS = ("Slow", "Quick")
 
@@ -63,6 +74,19 @@ def _cfg(tier_cfg) -> G.GenCfg:
 @st.composite
 def cases(draw, tier_cfg):
     tree = E.fix_tree(draw(G.program(_cfg(tier_cfg))))
+    kinds_w = KINDS_W
+    if draw(st.integers(0, 5)) == 0:
+        # macro family: a macro that is called early (and possibly again later), edits aimed at macros - the edit of a macro
+        # that has started executing must be rejected
+        body = [{"k": "mark", "t": None}] + draw(st.lists(st.sampled_from([{"k": "mark", "t": None}, {"k": "quick", "t": None},
+                                                                          {"k": "wait", "d": 0.2, "t": None}]), max_size=2))
+        if draw(st.booleans()):
+            body.append({"k": draw(st.sampled_from(["blank", "comment"])), "t": None})
+        pre = [{"k": "macro", "name": "MX", "c": body, "t": None}, {"k": "callmacro", "name": "MX", "t": None}]
+        tree["body"] = pre + tree["body"]
+        if draw(st.booleans()):
+            tree["body"].append({"k": "callmacro", "name": "MX", "t": None})
+        kinds_w = KINDS_MACRO
     est = min(E.est_ticks(tree), 280)      # ops stay within tick 1..300 (valid_ops)
     init = {t: float(draw(st.sampled_from([0, 1, 2, 3, 5, 8]))) for t in ("In1", "In2", "Temp")}
     traj = [[0, init]]
@@ -70,7 +94,7 @@ def cases(draw, tier_cfg):
         traj += [p for p in draw(G.trajectory(est + 10)) if p[0] > 0]
     ops = []
     for _ in range(draw(st.integers(1, tier_cfg.get("max_edits", 4)))):
-        ops.append({"op": "edit", "tick": draw(st.integers(1, est + 6)), "kind": draw(st.sampled_from(KINDS_W)),
+        ops.append({"op": "edit", "tick": draw(st.integers(1, est + 6)), "kind": draw(st.sampled_from(kinds_w)),
                     "idx": draw(st.integers(0, 40)), "payload": draw(st.lists(E.LEAF, min_size=1, max_size=3))})
     if draw(st.integers(0, 3)) == 0:
         tgt = ops[draw(st.integers(0, len(ops) - 1))]
@@ -154,14 +178,27 @@ def run_case(case):
             cl.append("edit-during-wait")
         if rec["state"] != "Running":
             cl.append("edit-while:%s" % rec["state"])
+        if k == "append_macro":
+            cl.append("append_macro:%s" % ("started-macro" if rec["info"]["started_macro_edit"] else "not-started-macro-or-fallback"))
         if rec["accepted"]:
             n_acc += 1
             cl.append("accepted:%s" % k)
             if progressed and not rec["method_end_seen"]:
                 info["nontrivial"] = True
             if rec["info"]["expect_reject"]:
-                viol("reject-missing", "edit at tick %d changed started line %s (%r) and was accepted (%s)"
-                     % (rec["tick"], rec["info"]["target"], dict(rec["new_lines"]).get(rec["info"]["target"]), rec["ret"]))
+                if k == "reindent_started":
+                    viol("reject-missing:indentation-only", "edit at tick %d changed only the indentation of started line %s (%r -> %r, "
+                         "moved %s of a scope) and was accepted (%s)"
+                         % (rec["tick"], rec["info"]["target"], dict(rec["old_lines"]).get(rec["info"]["target"]),
+                            dict(rec["new_lines"]).get(rec["info"]["target"]), rec["info"].get("reindent"), rec["ret"]))
+                elif rec["info"]["started_macro_edit"] and k != "change_started":
+                    viol("reject-missing:started-macro", "edit (%s) at tick %d changed the source of macro line(s) %s that had started "
+                         "executing (state: started=%s executed=%s) and was accepted (%s); new lines %s"
+                         % (k, rec["tick"], rec["info"]["started_macro_edit"], sorted(before["started"]), sorted(before["executed"]),
+                            rec["ret"], [l for l in rec["new_lines"] if l not in rec["old_lines"]][:4]))
+                else:
+                    viol("reject-missing", "edit at tick %d changed started line %s (%r) and was accepted (%s)"
+                         % (rec["tick"], rec["info"]["target"], dict(rec["new_lines"]).get(rec["info"]["target"]), rec["ret"]))
             if k == "ws" and rec["info"]["touched"]:
                 cl.append("ws-on-started:accepted")
             present = {l[0] for l in rec["new_lines"]} | {"root"}
@@ -186,6 +223,8 @@ def run_case(case):
                      % (rec["tick"], sorted(all_before), rec["ret"]))
         else:
             cl.append("rejected:%s" % k)
+            if rec["info"]["started_macro_edit"]:
+                cl.append("rejected:started-macro-edit")
             stated = rec["info"]["expect_reject"] or (k == "ws" and rec["info"]["touched"])
             if not stated:
                 cl.append("rejected-not-started-edit:%s" % k)
